@@ -418,7 +418,9 @@ class Atomic:
                                      may do while this task is suspended
     """
 
-    def __init__(self, shared, invariant=(), guarantee=(), rely=(), may_cancel=False, shared_heap=()):
+    def __init__(self, shared, invariant=(), guarantee=(), rely=(), may_cancel=False, shared_heap=(),
+                 on_yield=None):
+        self.on_yield = on_yield
         self.shared_heap = list(shared_heap)
         self.shared = list(shared)
         self.invariant = list(invariant)
@@ -705,6 +707,8 @@ class Executor:
         for key in list(self.st.heap):
             if key in at.shared_heap:  # mutable attributes of shared opaque objects
                 self.st.heap[key] = z3.Const(fresh_name(f'H.{key[0]}.{key[1]}'), self.st.heap[key].sort())
+        if at.on_yield is not None:
+            at.on_yield(self)
         sc2 = Scope(self.st, names, self.old_scope, {'seg': pre})
         for label, cl in at.invariant:
             self.assume(cl(sc2))
